@@ -9,7 +9,7 @@ InfrastructureInfo, mutates every list / dict returned by the interface getters 
 `active_evs` EV copies (charge(), reset(), attribute overwrites), and returns σ.
 
 correspondence: the vandalised run == `Sim.run` given σ (trajectory) and the recorded views ==
-`Sim.runViews` (drv_C05); oracle: invocation periods == the set computed from the event timestamps and
+`Sim.runViews`, the InfrastructureInfo of every invocation == `Sim.infraInfoAt` (drv_C05); oracle: invocation periods == the set computed from the event timestamps and
 max_recompute, at most once per period, after the period's events, every recorded view == ground
 truth, vandalised run == clean run.
 
@@ -26,7 +26,19 @@ Beyond one run() over plug-in / unplug / recompute events the scenarios have thr
    every withheld event lies at or after the period where the previous run() stops (`staging_ok`): then the
    staged history must be, period by period, the history of the same events handed over at once.
 
-`Interface.get_constraints()` returns the network's live arrays BY DESIGN (DESIGN §8) — not attacked.
+ * `net_edits`: what the scheduler's view is a view OF is edited BETWEEN invocations, on the live objects of the
+   same Simulator — `ChargingNetwork.update_constraint` keeping the name (a new limit / new coefficients on the
+   last, on another, on every constraint), remove + re-add under the old name, rename, add, remove, nothing (control);
+   the tariff in `Simulator.signals` replaced; the `estimated_departure` of a connected EV revised — from the
+   network's public `post_charging_update` hook of a period (in force from the next period on), before the first
+   run() (after the Interface was asked), or between two run()s of a staged case.  The ground truth of every
+   answer of the Interface is the case's OWN edit history, as far as the harness had applied it at that moment,
+   replayed on a description kept by the oracle and on a FRESH ChargingNetwork — never what the Interface under
+   test says: nothing the Interface hands out may be older than the last edit (model: `Sim.infraInfoAt`,
+   AcnModel/NetEdits.lean; prices and estimated departures: oracle only).
+
+`Interface.get_constraints()` returns the network's live arrays BY DESIGN (DESIGN §8) — not attacked, but READ at
+every invocation and judged like the InfrastructureInfo.
 `Interface.infrastructure_info()` used to raise on a constraint-free network (defect F3, property C06,
 repaired in /repo): it now hands out a 0 x N view, which is judged like any other view.
 """
@@ -62,6 +74,8 @@ REQUIRED_THEOREMS = [
     "Acn.C05.invoked_at_most_once_any_guard", "Acn.C05.runI_nil", "Acn.C05.ignored_run_is_trace",
     "Acn.C05.invoked_at_most_once_ignored", "Acn.C05.runI_invoked_iff", "Acn.C05.runI_invoked_iff_fuelForI",
     "Acn.C05.simI_invoked_core", "Acn.C05.views_faithful_ignored", "Acn.C05.isolation_run_ignored",
+    "Acn.C05.infra_at_true", "Acn.C05.infra_at_static", "Acn.C05.infra_at_before", "Acn.C05.infra_at_congr",
+    "Acn.C05.infra_at_between", "Acn.C05.infra_at_relimit_last",
 ]
 BUDGET = {"quick": 350, "thorough": 4000, "search": 1200}
 TRUSTED = ["copy.deepcopy / numpy array copy semantics (the isolation half is validated by the vandalising "
@@ -79,7 +93,15 @@ ASSUMPTIONS = ["trigger theorems: none on the configuration (any sessions, times
                "that only enters the loop condition (Sim.runI), not as a fourth event kind: their position inside event_history and "
                "the matrix widths DURING a run (get_last_timestamp over the real queue) are not modelled — the final shapes are",
                "staged runs are compared with the model of the same events handed over at once (well-formed staging only); a run with "
-               "ignored-type events or stages that aborts is judged by the oracle alone"]
+               "ignored-type events or stages that aborts is judged by the oracle alone",
+               "edits between invocations (net_edits): the edit history is an INPUT of the model, each entry with the first period in "
+               "which it is in force (0 = before run(), p+1 = post_charging_update hook of period p, h = between two run()s the first "
+               "of which stopped at h); the model covers the constraint part of InfrastructureInfo in every period (Sim.infraInfoAt) — "
+               "a replaced tariff (get_prices / get_demand_charge) and a revised estimated_departure are judged by the oracle alone; "
+               "the trajectory does not depend on the constraints (an infeasible schedule is only warned about), so it is compared as "
+               "before; the oracle's ground truth is the case's own history as far as the HARNESS had applied it (its own log), replayed "
+               "in plain Python and on a fresh ChargingNetwork; stations are not registered / unregistered mid-run (the Simulator's "
+               "matrices have one row per station of the construction) and Simulator.update_scheduler is not exercised"]
 RULE = ("simcase scenario (1-6 stations, 0-25 sessions, back-to-back reuse, simultaneous events) x max_recompute in "
         "{None,1,2,3,7,(0)} x 0-4 extra RecomputeEvents (also on event periods and after the last departure) x 0-3 extra "
         "constraints (subsets of stations, signed / fractional coefficients, default / duplicate names); scripted "
@@ -92,12 +114,22 @@ RULE = ("simcase scenario (1-6 stations, 0-25 sessions, back-to-back reuse, simu
         "a second wave of 1-3 sessions appended 0-3 periods after the end, or T = 0 = constructed with an empty queue; 1 in 25 with a "
         "threshold INSIDE the history = late additions, malformed); the Interface is asked again at the end of every invocation and "
         "between / after the run()s of a staged case; "
+        "x EDITS BETWEEN INVOCATIONS in 9 of 25 cases (1-4 entries; 12% before the first run() — in 70% of those after the Interface "
+        "was asked —, with staging 28% between two run()s, else from the post_charging_update hook: 2/3 in the period just before "
+        "an event period, rest anywhere up to the last timestamp; kinds: update_constraint keeping the name with a new limit on the "
+        "LAST constraint (x4), on any, new coefficients (same or new limit) on the last / on any, every constraint once in order, "
+        "remove + re-add under the old name (any / last), rename, add (fresh / default / taken name), remove 1-2, nothing, the "
+        "tariff replaced (new signals dict or in place), estimated_departure of 1-2 EVs revised; the constraint list is tracked so "
+        "that every op names an existing constraint; real algorithms included) + 7 corpus cases (single site limit re-rated twice "
+        "from the hook x max_recompute None/1/3; three constraints through every kind in turn; a finished simulation re-rated, "
+        "extended and resumed); get_constraints() is read at every invocation; "
         "exact-boundary stream (8% + 12 corpus cases): sessions whose remaining demand is float-EXACTLY 1e-3 kWh, one ulp "
         "above and one ulp below (from the plug-in on, or after 1-3 charging periods on a (V, period, pilot) grid point whose "
         "arithmetic the generator verifies to be exact), then held there while connected; "
         "thorough adds EVERY valid layout with <=3 sessions on <=2 stations within horizon 5 x max_recompute in "
         "{None,1,2,3} x a cycling recompute-event set (5728 cases; clean twin for every 8th; every 3rd with a cycling set of "
-        "ignored-type events, every 5th with the Interface asked before run()); "
+        "ignored-type events, every 5th with the Interface asked before run(), every 4th with 1-4 edits between invocations: a limit-only "
+        "update of the last constraint + a cycling second kind); "
         "non-trivial = >=3 invocations, at least one triggered by max_recompute alone or at least one period without "
         "invocation, and >=1 view with an active session; distinct by hash of the case")
 
@@ -210,6 +242,8 @@ def _record(algo, iface, sessions, sim, ctx, light=False):
                           "rate": _f(e.current_charging_rate), "arrival": int(e.arrival), "departure": int(e.departure),
                           "requested": _f(e.requested_energy)} for e in evs]
     rec["amp_periods"] = None
+    # the entries of case["net_edits"] the HARNESS has applied so far (its own log, in application order)
+    rec["edits"] = list(ctx.get("applied", []))
     if light:
         try:
             rec["infra"] = _infra_rec(iface.infrastructure_info())
@@ -225,7 +259,12 @@ def _record(algo, iface, sessions, sim, ctx, light=False):
                            "max": _f(iface.max_pilot_signal(st)), "min": _f(iface.min_pilot_signal(st)),
                            "V": _f(iface.evse_voltage(st)), "phase": _f(iface.evse_phase(st))} for st in info.station_ids]
         rec["amp_periods"] = [_f(iface.remaining_amp_periods(s)) for s in (sessions if sessions is not None else iface.active_sessions())]
-    except AttributeError as e:        # (was defect F3 on constraint-free networks; judged as infra_wrong now)
+        con = iface.get_constraints()          # live arrays by design: read, never written
+        rec["constraints"] = {"constraint_matrix": [] if con.constraint_matrix is None else
+                              [[_f(x) for x in row] for row in np.asarray(con.constraint_matrix).tolist()],
+                              "constraint_limits": _lst(con.magnitudes), "constraint_ids": [str(x) for x in con.constraint_index],
+                              "station_ids": [str(x) for x in con.evse_index]}
+    except AttributeError as e:       # (was defect F3 on constraint-free networks; judged as infra_wrong now)
         rec["infra"] = None
         rec["infra_err"] = type(e).__name__
     try:
@@ -400,11 +439,189 @@ class Runaway(Exception):
 class GuardNet(S.SnapshotNetwork):
     """SnapshotNetwork that stops a run() that does not terminate (public extension point only)"""
     limit = 10 ** 9
+    on_period = None          # callback(p): the harness' scheduled edits of period p (case["net_edits"], at = "hook")
 
     def post_charging_update(self):
         super().post_charging_update()
         if len(self.occ_log) > self.limit:
             raise Runaway(f"still running in period {len(self.occ_log)}")
+        if self.on_period is not None:
+            self.on_period(len(self.occ_log) - 1)      # one call per period since period 0: the period just charged
+
+
+# ------------------------------------------------------------------ edits between invocations (case["net_edits"])
+#
+# entry = {"at": "pre" | "hook" | "stage", ["t": p] (hook: period whose post_charging_update applies it),
+#          ["k": k] (stage: after the k-th run() returned and the Interface was asked), "kind": <generator's label>,
+#          "ops": [ {"op": "update", "name": n, "current": [[station, coeff]…], "limit": x [, "new_name": m]}
+#                 | {"op": "remove", "name": n} | {"op": "add", "name": n | None, "current": […], "limit": x}
+#                 | {"op": "tariff", "name": <tariff file>, "inplace": bool}
+#                 | {"op": "est", "session": sid, "value": int} ]}
+# The list is kept in APPLICATION order (`_edit_key`); the harness logs the index of every entry it applies.
+
+DEFAULT_TARIFF = "sce_tou_ev_4_march_2019"
+TARIFFS = ["sce_tou_ev_4_march_2019", "sce_tou_ev_8_june_2019", "sce_tou_ev_8_oct_2018", "pge_a10_tou_aug_2019"]
+
+
+def _edits(case):
+    return case.get("net_edits") or []
+
+
+def _cur(o):
+    return Current({k: I.num(v) for k, v in o["current"]})
+
+
+def _apply_net_ops(net, ops):
+    """the constraint ops of an entry on a ChargingNetwork (the simulator's, or the oracle's fresh one)"""
+    for o in ops:
+        if o["op"] == "update":
+            net.update_constraint(o["name"], _cur(o), I.num(o["limit"]), new_name=o.get("new_name"))
+        elif o["op"] == "remove":
+            net.remove_constraint(o["name"])
+        elif o["op"] == "add":
+            net.add_constraint(_cur(o), I.num(o["limit"]), name=o.get("name"))
+
+
+def _apply_entry(idx, entry, sim, ctx):
+    """apply one entry to the LIVE objects of the simulation and log it (harness side of the history)"""
+    from acnportal.signals.tariffs.tou_tariff import TimeOfUseTariff
+    err = None
+    try:
+        with warnings.catch_warnings():
+            warnings.simplefilter("ignore")
+            for o in entry["ops"]:
+                if o["op"] == "tariff":
+                    if o.get("inplace") and isinstance(sim.signals, dict):
+                        sim.signals["tariff"] = TimeOfUseTariff(o["name"])
+                    else:
+                        sim.signals = {"tariff": TimeOfUseTariff(o["name"])}
+                elif o["op"] == "est":
+                    for ev in ctx["evs"]:
+                        if ev.session_id == o["session"]:
+                            ev.estimated_departure = int(o["value"])
+                else:
+                    _apply_net_ops(ctx["network"], [o])
+    except Exception as e:  # noqa: BLE001  (the generator only writes edits the network accepts)
+        err = S.err_name(e)
+    ctx["applied"].append(idx)
+    if err is not None:
+        ctx["edit_errors"].append([idx, err])
+
+
+def _edit_key(case, e):
+    """position of an entry in the history of a run that does not abort (well-formed staging): (first period in
+    which it is in force, class, stage) — `pre` before everything; the hook of period p before the stage edit that
+    follows the run() which stopped after period p"""
+    if e["at"] == "pre":
+        return (0, 0, 0)
+    if e["at"] == "hook":
+        return (int(e["t"]) + 1, 1, 0)
+    return (_stage_horizons(case)[int(e["k"])], 2, int(e["k"]))
+
+
+def _moment_key(case, when, t=None):
+    """position of a query in the same order: inside schedule() in period t, or outside (`when`)"""
+    if when == "inside":
+        return (t, 3, 0)
+    if when == "pre":
+        return (0, -1, 0)
+    if when == "pre:edited":
+        return (0, 0, 1)
+    if when == "post":
+        return (_stage_horizons(case)[-1], 3, 0)
+    parts = when.split(":")
+    k = int(parts[1])
+    return (_stage_horizons(case)[k], 2, k + (0.5 if len(parts) > 2 else -0.5))
+
+
+def expected_applied(case, when, t=None):
+    """indices of the entries in force at a query, from the case alone (run without abort, well-formed staging)"""
+    m = _moment_key(case, when, t)
+    return [i for i, e in enumerate(_edits(case)) if _edit_key(case, e) < m]
+
+
+def _net_state(case, applied=()):
+    """The oracle's OWN replay of the history (plain Python, no acnportal object): the add_constraint calls of
+    the case, then the entries `applied` (indices, application order).  charging_network.py: a row is appended
+    under its name (`_const_<n>` for None, one `_v2` for a taken name); remove deletes the first row of that
+    name; update = remove + add under the new (or the same) name, i.e. the row moves to the END."""
+    cons = []
+    rejected = []
+
+    def add(cur, limit, name):
+        names = [c[0] for c in cons]
+        nm = name if name is not None else "_const_{0}".format(len(cons))
+        cons.append([nm + "_v2" if nm in names else nm, {k: float(I.num(v)) for k, v in cur}, limit])
+
+    def remove(name):
+        k = next((i for i, c in enumerate(cons) if c[0] == name), None)
+        if k is None:
+            raise KeyError(name)
+        del cons[k]
+
+    for c in all_constraints(case):
+        add(c["current"], c["limit"], c.get("name"))
+    tariff = DEFAULT_TARIFF
+    est = {}
+    for idx in applied:
+        try:
+            for o in _edits(case)[idx]["ops"]:
+                if o["op"] == "update":
+                    remove(o["name"])
+                    add(o["current"], o["limit"], o.get("new_name") if o.get("new_name") is not None else o["name"])
+                elif o["op"] == "remove":
+                    remove(o["name"])
+                elif o["op"] == "add":
+                    add(o["current"], o["limit"], o.get("name"))
+                elif o["op"] == "tariff":
+                    tariff = o["name"]
+                elif o["op"] == "est":
+                    est[o["session"]] = int(o["value"])
+        except KeyError:
+            rejected.append(idx)
+    return {"cons": cons, "tariff": tariff, "est": est, "rejected": rejected}
+
+
+_FRESH = {}
+
+
+def fresh_network_infra(case, applied=()):
+    """The same history replayed on a FRESH acnportal ChargingNetwork built from the case alone (never the
+    simulator's network, never the Interface under test): its constraint containers."""
+    from acnportal.acnsim.network.charging_network import ChargingNetwork
+    key = (id(case), tuple(applied))
+    if key in _FRESH and _FRESH[key][0] is case:
+        return _FRESH[key][1]
+    net = ChargingNetwork()
+    for st in case["stations"]:
+        net.register_evse(I.make_evse(st["kind"], st["id"]), I.num(st["V"]), I.num(st.get("phase", 0)))
+    with warnings.catch_warnings():
+        warnings.simplefilter("ignore")
+        for c in all_constraints(case):
+            net.add_constraint(_cur(c), I.num(c["limit"]), name=c.get("name"))
+        for idx in applied:
+            try:
+                _apply_net_ops(net, _edits(case)[idx]["ops"])
+            except Exception:  # noqa: BLE001
+                pass
+    cm = net.constraint_matrix
+    out = {"constraint_matrix": [] if cm is None else [[_f(x) for x in row] for row in np.asarray(cm).tolist()],
+           "constraint_limits": _lst(net.magnitudes), "constraint_ids": [str(x) for x in net.constraint_index],
+           "station_ids": list(net.station_ids)}
+    if len(_FRESH) > 64:
+        _FRESH.clear()
+    _FRESH[key] = (case, out)
+    return out
+
+
+_TARIFF_OBJ = {}
+
+
+def _fresh_tariff(name):
+    from acnportal.signals.tariffs.tou_tariff import TimeOfUseTariff
+    if name not in _TARIFF_OBJ:
+        _TARIFF_OBJ[name] = TimeOfUseTariff(name)
+    return _TARIFF_OBJ[name]
 
 
 KNOWN_TYPES = ("Plugin", "Unplug", "Recompute")
@@ -558,19 +775,34 @@ def _one_run(case, vandal):
                 warnings.simplefilter("ignore")
                 ctx["network"].add_constraint(Current({k: I.num(v) for k, v in c["current"]}), I.num(c["limit"]), name=c.get("name"))
         box["sim"], box["ctx"] = sim, ctx
+        ctx["applied"], ctx["edit_errors"] = [], []
         try:
             from acnportal.signals.tariffs.tou_tariff import TimeOfUseTariff
-            sim.signals = {"tariff": TimeOfUseTariff("sce_tou_ev_4_march_2019")}
+            sim.signals = {"tariff": TimeOfUseTariff(DEFAULT_TARIFF)}
         except Exception:  # noqa: BLE001
             pass
+        edits = list(enumerate(_edits(case)))
+
+        def apply_where(pred):
+            hit = [(i, e) for i, e in edits if pred(e)]
+            for i, e in hit:
+                _apply_entry(i, e, sim, ctx)
+            return bool(hit)
+
+        if any(e["at"] == "hook" for _, e in edits):
+            ctx["network"].on_period = lambda p: apply_where(lambda e: e["at"] == "hook" and int(e["t"]) == p)
         if case.get("pre_query"):
             ask_outside("pre")
+        if apply_where(lambda e: e["at"] == "pre") and case.get("pre_query"):
+            ask_outside("pre:edited")
         err = S.run_sim(sim)
         stops = [int(sim.iteration)]
         for k, events in enumerate(later):
             if err is not None:
                 break
             ask_outside(f"between:{k}")
+            if apply_where(lambda e: e["at"] == "stage" and int(e["k"]) == k):
+                ask_outside(f"between:{k}:edited")
             sim.event_queue.add_events(events)
             err = S.run_sim(sim)
             stops.append(int(sim.iteration))
@@ -579,6 +811,8 @@ def _one_run(case, vandal):
         obs = S.observe(sim, ctx, err)
         obs["noise_draws"] = ns["k"]
         obs["final_infra"] = _truth(sim, ctx)["infra"]
+        obs["edits_applied"] = list(ctx["applied"])
+        obs["edit_errors"] = list(ctx["edit_errors"])
     obs["views"] = views
     obs["outside"] = outside
     obs["stops"] = stops
@@ -630,7 +864,25 @@ def model_request(case, obs=None):
                       "constraints": [{"current": [[k, f2b(float(I.num(v)))] for k, v in c["current"]],
                                        "limit": f2b(float(I.num(c["limit"]))), "name": c.get("name")}
                                       for c in all_constraints(case)]}
+        # the edit history, each entry with the first period in which it is in force (`Sim.infraInfoAt`)
+        ed = []
+        for e in _edits(case):
+            ops = [_op_wire(o) for o in e["ops"] if o["op"] in ("update", "remove", "add")]
+            if ops:
+                ed.append({"from": int(_edit_key(case, e)[0]), "ops": ops})
+        if ed:
+            req["net"]["edits"] = ed
     return req
+
+
+def _op_wire(o):
+    w = {"op": o["op"], "name": o.get("name")}
+    if o["op"] != "remove":
+        w["current"] = [[k, f2b(float(I.num(v)))] for k, v in o["current"]]
+        w["limit"] = f2b(float(I.num(o["limit"])))
+    if o["op"] == "update":
+        w["new_name"] = o.get("new_name")
+    return w
 
 
 # ------------------------------------------------------------------ correspondence
@@ -652,6 +904,7 @@ def compare(case, obs, model):
     if [v["t"] for v in iv] != [v["t"] for v in mv]:
         diffs.append(f"views handed out: impl periods {[v['t'] for v in iv]} model {[v['t'] for v in mv]}")
         return diffs[:12]
+    revised = {o["session"] for e in _edits(case) for o in e["ops"] if o["op"] == "est"}
     for a, b in zip(iv, mv):
         t = a["t"]
         ia = a["sessions"]
@@ -661,6 +914,8 @@ def compare(case, obs, model):
             continue
         for s, m in zip(ia, ma):
             for k in ("station", "arrival", "departure", "est"):
+                if k == "est" and s["session"] in revised:
+                    continue        # estimated departure revised mid-run: not in the model's configuration (oracle only)
                 if s[k] != m[k]:
                     diffs.append(f"view t={t} session {s['session']} {k}: impl {s[k]} model {m[k]}")
             for k in ("requested", "delivered"):
@@ -699,9 +954,23 @@ def compare(case, obs, model):
         for k, val in got.items():
             if not _same(val, exp[k]):
                 diffs.append(f"infrastructure {k}: model {val} network built with {exp[k]}")
-            for v in iv:
-                if v["infra"] is not None and not _same(val, v["infra"][k]):
-                    diffs.append(f"view t={v['t']} infrastructure_info().{k}: impl {v['infra'][k]} model {val}")
+        # every view: the InfrastructureInfo handed out in period t == the model's description of the network as
+        # edited up to t (`Sim.infraInfoAt`; without edits this is `infra_full` at every t)
+        ma = model.get("infra_at")
+        if ma is None or [x["t"] for x in ma] != [v["t"] for v in iv]:
+            diffs.append(f"model answer carries no infra_at for the views {[v['t'] for v in iv]}: {None if ma is None else [x['t'] for x in ma]}")
+        else:
+            for v, x in zip(iv, ma):
+                if v["infra"] is None:
+                    continue
+                gat = {"constraint_matrix": [[_f(b2f(y)) for y in row] for row in x["constraint_matrix"]],
+                       "constraint_limits": [_f(b2f(y)) for y in x["constraint_limits"]], "phases": [_f(b2f(y)) for y in x["phases"]],
+                       "voltages": [_f(b2f(y)) for y in x["voltages"]], "constraint_ids": x["constraint_ids"], "station_ids": x["station_ids"]}
+                bad = [k for k, val in gat.items() if not _same(val, v["infra"][k])]
+                if bad:
+                    k = bad[0]
+                    diffs.append(f"view t={v['t']} infrastructure_info().{k}: impl {v['infra'][k]} model {gat[k]}"
+                                 + (f" (edit history in force: entries {v.get('edits')})" if _edits(case) else ""))
                     break
     return diffs[:12]
 
@@ -719,19 +988,17 @@ def all_constraints(case):
     return out
 
 
-def expected_infra(case):
-    """What the network's description must be, computed from the case and FRESH EVSE objects (not the
-    simulator's network, which a broken isolation could have corrupted).  A constraint-free network is
-    the 0 x N view."""
+def expected_infra(case, applied=()):
+    """What the network's description must be, computed from the case — its add_constraint calls and the entries
+    `applied` of its edit history (`_net_state`) — and FRESH EVSE objects (not the simulator's network, which a
+    broken isolation could have corrupted).  A constraint-free network is the 0 x N view."""
     sts = case["stations"]
     evses = [I.make_evse(st["kind"], st["id"]) for st in sts]
     rows, limits, names = [], [], []
-    for c in all_constraints(case):
-        co = {k: float(I.num(v)) for k, v in c["current"]}
+    for nm, co, lim in _net_state(case, applied)["cons"]:
         rows.append([_f(co.get(st["id"], 0.0)) for st in sts])
-        limits.append(_f(I.num(c["limit"])))
-        nm = c.get("name") if c.get("name") is not None else "_const_{0}".format(len(names))
-        names.append(nm + "_v2" if nm in names else nm)
+        limits.append(_f(I.num(lim)))
+        names.append(nm)
     return {"constraint_matrix": rows, "constraint_limits": limits, "constraint_ids": names,
             "phases": [_f(I.num(st.get("phase", 0))) for st in sts], "voltages": [_f(I.num(st["V"])) for st in sts],
             "station_ids": [st["id"] for st in sts], "max_pilot": [_f(e.max_rate) for e in evses],
@@ -820,7 +1087,8 @@ def _view_checks(case, v, exp_infra, fails, where="", inside=True):
             fails.append({"kind": "view_mismatch:infra", "detail": f"{where}period {t}: infrastructure_info {v['infra']} network {tr['infra']}"})
         for k, want in exp_infra.items():
             if want is not None and not _same(v["infra"][k], want):
-                fails.append({"kind": "infra_wrong", "detail": f"{where}period {t}: {k} = {v['infra'][k]}, the network was built with {want}"})
+                fails.append({"kind": "infra_wrong", "detail": f"{where}period {t}: {k} = {v['infra'][k]}, the network was built with {want}"
+                              + (f" (after the entries {v.get('edits')} of the case's net_edits)" if _edits(case) else "")})
                 break
         for k, g in enumerate(v.get("getters", [])):
             want = {"id": exp_infra["station_ids"][k], "allowable": [exp_infra["is_continuous"][k], exp_infra["allowable"][k]],
@@ -837,6 +1105,48 @@ def _view_checks(case, v, exp_infra, fails, where="", inside=True):
                     fails.append({"kind": "view_mismatch:amp_periods", "detail": f"{where}period {t} session {s['session']}: remaining_amp_periods {ap}, expected {want}"})
     else:
         fails.append({"kind": "infra_wrong", "detail": f"{where}period {t}: infrastructure_info() raised {v.get('infra_err')}"})
+
+
+def _edit_checks(case, v, exp_infra, fails, where=""):
+    """The answers of the Interface against the case's own edit history as far as the harness had applied it when
+    the question was asked (v["edits"]): get_constraints(); the same history replayed on a FRESH ChargingNetwork;
+    prices of the tariff the history says is installed; the estimated departures the history says were revised."""
+    t = v["t"]
+    hist = f" (edit history in force: entries {v.get('edits')} of net_edits)" if _edits(case) else ""
+    con = v.get("constraints")
+    if con is not None:
+        for k in ("constraint_matrix", "constraint_limits", "constraint_ids", "station_ids"):
+            if not _same(con[k], exp_infra[k]):
+                fails.append({"kind": "infra_wrong", "detail": f"{where}period {t}: get_constraints().{k} = {con[k]}, the network holds {exp_infra[k]}{hist}"})
+                break
+    if not _edits(case):
+        return
+    if v.get("infra") is not None:
+        fresh = fresh_network_infra(case, v.get("edits", []))
+        for k, want in fresh.items():
+            if not _same(v["infra"][k], want):
+                fails.append({"kind": "infra_stale", "detail": f"{where}period {t}: infrastructure_info().{k} = {v['infra'][k]}; the case's history "
+                              f"replayed on a fresh ChargingNetwork gives {want}{hist}"})
+                break
+    st = _net_state(case, v.get("edits", []))
+    if any(o["op"] == "tariff" for e in _edits(case) for o in e["ops"]) and isinstance(v.get("prices"), list):
+        tar = _fresh_tariff(st["tariff"])
+        now = S.START + timedelta(minutes=float(I.num(case["period"]))) * t
+        want = [_f(x) for x in tar.get_tariffs(now, 3, float(I.num(case["period"])))]
+        if not _same(v["prices"], want):
+            fails.append({"kind": "view_mismatch:prices", "detail": f"{where}period {t}: get_prices(3) {v['prices']}, tariff {st['tariff']} installed: {want}{hist}"})
+        want_dc = _f(tar.get_demand_charge(now))
+        if not _same(v.get("demand_charge"), want_dc):
+            fails.append({"kind": "view_mismatch:prices", "detail": f"{where}period {t}: get_demand_charge {v.get('demand_charge')}, tariff {st['tariff']} installed: {want_dc}{hist}"})
+    if any(o["op"] == "est" for e in _edits(case) for o in e["ops"]):
+        base = {s["session"]: (s["est"] if s.get("est") is not None else s["departure"]) for s in case["sessions"]}
+        for name in ("sessions", "sessions_again"):
+            for s in v.get(name, []):
+                want = st["est"].get(s["session"], base.get(s["session"]))
+                if want is not None and s["est"] != want:
+                    fails.append({"kind": "view_mismatch:sessions", "detail": f"{where}period {t} {name}: session {s['session']} estimated_departure "
+                                  f"{s['est']}, the EV's estimate is {want}{hist}"})
+                    break
 
 
 def _requery_checks(case, v, exp_infra, fails, where=""):
@@ -916,10 +1226,26 @@ def oracle(case, obs):
                 fails.append({"kind": "invocation_set", "detail": f"run() raised {obs['err']} in period {p}: invoked {inv}, required {exp}"})
 
     # --- each view: after the period's events, equal to the ground truth at that moment; asked again: the same
-    exp_infra = expected_infra(case)
+    #     (the infrastructure: what the case's own edit history, as far as applied at that moment, makes of the network)
+    memo = {}
+
+    def exp_at(applied):
+        key = tuple(applied or ())
+        if key not in memo:
+            memo[key] = expected_infra(case, key)
+        return memo[key]
+
+    for idx, e in obs.get("edit_errors", []):
+        if idx not in _net_state(case, obs.get("edits_applied", []))["rejected"]:
+            fails.append({"kind": "edit_rejected", "detail": f"net_edits[{idx}] {_edits(case)[idx]['ops']} raised {e} on the simulation's network"})
     for v in views:
-        _view_checks(case, v, exp_infra, fails)
-        _requery_checks(case, v, exp_infra, fails)
+        _view_checks(case, v, exp_at(v.get("edits")), fails)
+        _edit_checks(case, v, exp_at(v.get("edits")), fails)
+        _requery_checks(case, v, exp_at(v.get("edits")), fails)
+        if valid and obs["err"] is None and v.get("edits", []) != expected_applied(case, "inside", v["t"]):
+            fails.append({"kind": "edit_history_not_applied", "detail": f"period {v['t']}: the harness had applied the entries {v.get('edits')} of "
+                          f"net_edits, the case schedules {expected_applied(case, 'inside', v['t'])} before this invocation "
+                          "(post_charging_update not called once per period?)"})
 
     # --- the Interface asked from OUTSIDE schedule() (before run(), between two run()s, after the last one)
     hs = _stage_horizons(case)
@@ -929,10 +1255,14 @@ def oracle(case, obs):
             if valid:
                 fails.append({"kind": "view_mismatch:sessions", "detail": f"{where}the Interface raised {o['error']}"})
             continue
-        _view_checks(case, o, exp_infra, fails, where=where, inside=False)
-        _requery_checks(case, o, exp_infra, fails, where=where)
+        _view_checks(case, o, exp_at(o.get("edits")), fails, where=where, inside=False)
+        _edit_checks(case, o, exp_at(o.get("edits")), fails, where=where)
+        _requery_checks(case, o, exp_at(o.get("edits")), fails, where=where)
         if valid and obs["err"] is None:
-            want_t = 0 if o["when"] == "pre" else hs[-1] if o["when"] == "post" else hs[int(o["when"].split(":")[1])]
+            if o.get("edits", []) != expected_applied(case, o["when"]):
+                fails.append({"kind": "edit_history_not_applied", "detail": f"{where}the harness had applied the entries {o.get('edits')} of net_edits, "
+                              f"the case schedules {expected_applied(case, o['when'])} before this query"})
+            want_t = 0 if o["when"].startswith("pre") else hs[-1] if o["when"] == "post" else hs[int(o["when"].split(":")[1])]
             if o["t"] != want_t:
                 fails.append({"kind": "view_mismatch:current_time", "detail": f"{where}current_time {o['t']}, expected {want_t}"})
             # no run() is in progress: every session handed over so far has left (or nothing was plugged in yet)
@@ -998,7 +1328,8 @@ def oracle(case, obs):
 
     # --- isolation: the vandalised run is the clean run
     keys = ("err", "iter", "queue_empty", "pending", "resolve", "last_upd", "event_history", "ev_history", "invoked",
-            "occ_final", "occ", "pilots", "rates", "peak", "evs", "evse_pilot", "noise_draws", "final_infra")
+            "occ_final", "occ", "pilots", "rates", "peak", "evs", "evse_pilot", "noise_draws", "final_infra",
+            "edits_applied", "edit_errors")
     for k in keys:
         if not _same(S_json(obs.get(k)), S_json(clean.get(k))):
             fails.append({"kind": "isolation_broken", "detail": f"{k}: with vandalism {_short(obs.get(k))} without {_short(clean.get(k))}"})
@@ -1012,9 +1343,10 @@ def oracle(case, obs):
         fails.append({"kind": "isolation_broken", "detail": f"the view handed out at call #{k} differs between the vandalised and the clean run: "
                       f"{_short(views[k:k+1])} vs {_short(clean['views'][k:k+1])}"})
     if obs.get("final_infra") is not None:
-        for k, want in exp_infra.items():
+        for k, want in exp_at(obs.get("edits_applied")).items():
             if want is not None and not _same(obs["final_infra"][k], want):
-                fails.append({"kind": "isolation_broken", "detail": f"network {k} after the run {obs['final_infra'][k]}, built with {want}"})
+                fails.append({"kind": "isolation_broken", "detail": f"network {k} after the run {obs['final_infra'][k]}, built with {want}"
+                              + (f" and edited by the entries {obs.get('edits_applied')} of net_edits" if _edits(case) else "")})
                 break
     return fails
 
@@ -1097,6 +1429,39 @@ def corpus():
     # the Simulator constructed with an EMPTY queue, asked, then given its events
     out.append({"stations": two, "constraint": None, "sessions": [_s("a", "S0", 0, 3), _s("b", "S1", 1, 2)], "recomputes": [2],
                 "period": 5, "max_recompute": 2, "noise": [], "sched": sched, "splits": [0], "pre_query": True})
+    # the network EDITED between invocations.  (a) a single site limit re-rated under its own name from the
+    # post_charging_update hook of period 2 and again of period 6: the names, their order and the matrix stay, only the
+    # limit moves — every invocation from period 3 on must see 24 A, from period 7 on 48 A
+    agg = [["S0", 1.0], ["S1", 1.0]]
+    for mr in (None, 1, 3):
+        out.append({"stations": two, "constraint": {"limit": 64.0}, "sessions": [_s("x", "S0", 1, 6), _s("y", "S1", 4, 8)], "recomputes": [9],
+                    "period": 5, "max_recompute": mr, "noise": [], "sched": sched, "pre_query": mr == 3,
+                    "net_edits": [{"at": "hook", "t": 2, "kind": "limit_last", "ops": [{"op": "update", "name": "agg", "current": agg, "limit": 24.0}]},
+                                  {"at": "hook", "t": 6, "kind": "limit_last", "ops": [{"op": "update", "name": "agg", "current": agg, "limit": 48.0}]}]})
+    # (b) three constraints: limit of the last; new coefficients under the same name and limit; every constraint in
+    # order (the name list ends up unchanged); remove + re-add under the old name; rename; remove; add; tariff; estimate
+    ext = [{"current": [["S1", 2.0]], "limit": 40.0, "name": "c1"}, {"current": [["S0", 1.0], ["S1", -1.0]], "limit": 16.0, "name": None}]
+    hist = [{"at": "pre", "kind": "limit_last", "ops": [{"op": "update", "name": "_const_2", "current": [["S0", 1.0], ["S1", -1.0]], "limit": 17.0}]},
+            {"at": "hook", "t": 0, "kind": "coef_last", "ops": [{"op": "update", "name": "_const_2", "current": [["S0", 0.5]], "limit": 17.0}]},
+            {"at": "hook", "t": 1, "kind": "cycle", "ops": [{"op": "update", "name": "agg", "current": agg, "limit": 60.0},
+                                                          {"op": "update", "name": "c1", "current": [["S1", 2.0]], "limit": 41.0},
+                                                          {"op": "update", "name": "_const_2", "current": [["S0", 0.5]], "limit": 18.0}]},
+            {"at": "hook", "t": 2, "kind": "readd", "ops": [{"op": "remove", "name": "c1"}, {"op": "add", "name": "c1", "current": [["S1", 2.0]], "limit": 12.0}]},
+            {"at": "hook", "t": 3, "kind": "rename", "ops": [{"op": "update", "name": "agg", "current": agg, "limit": 60.0, "new_name": "site"}]},
+            {"at": "hook", "t": 4, "kind": "tariff", "ops": [{"op": "tariff", "name": "sce_tou_ev_8_june_2019", "inplace": True},
+                                                            {"op": "est", "session": "x", "value": 9}]},
+            {"at": "hook", "t": 5, "kind": "remove", "ops": [{"op": "remove", "name": "_const_2"}, {"op": "remove", "name": "site"}]},
+            {"at": "hook", "t": 6, "kind": "remove", "ops": [{"op": "remove", "name": "c1"}]},
+            {"at": "hook", "t": 7, "kind": "add", "ops": [{"op": "add", "name": None, "current": [["S1", 1.0]], "limit": 30.0}]}]
+    for mr in (1, 2):
+        out.append({"stations": two, "constraint": {"limit": 64.0}, "extra_constraints": ext, "sessions": [_s("x", "S0", 1, 8), _s("y", "S1", 3, 9)],
+                    "recomputes": [], "period": 5, "max_recompute": mr, "noise": [], "sched": sched, "pre_query": True, "net_edits": hist})
+    # (c) a FINISHED simulation re-rated, given more events and resumed (and re-rated again from the hook of the second run)
+    for mr in (None, 2):
+        out.append({"stations": two, "constraint": {"limit": 64.0}, "sessions": [_s("a", "S0", 1, 4), _s("b", "S1", 5, 8), _s("c", "S0", 5, 7)],
+                    "recomputes": [], "period": 5, "max_recompute": mr, "noise": [], "sched": sched, "splits": [5],
+                    "net_edits": [{"at": "stage", "k": 0, "kind": "limit_last", "ops": [{"op": "update", "name": "agg", "current": agg, "limit": 20.0}]},
+                                  {"at": "hook", "t": 5, "kind": "limit_last", "ops": [{"op": "update", "name": "agg", "current": agg, "limit": 21.0}]}]})
     return out
 
 
@@ -1189,6 +1554,121 @@ def _stage(rng, case, late=False):
     return case
 
 
+EDIT_KINDS = ["limit_last", "limit_last", "limit_last", "limit_last", "limit_any", "coef_last", "coef_any", "cycle", "readd",
+              "readd_last", "rename", "add", "remove", "none", "tariff", "est"]
+
+
+def _gen_entry_ops(rng, case, cons, kind, tag):
+    """ops of one entry of the given kind on the constraint list `cons` ([[name, {station: coeff}, limit]…] IN ITS
+    CURRENT ORDER, from `_net_state`); falls back to "add" / "none" where the kind needs something that is not there"""
+    ids = [st["id"] for st in case["stations"]]
+
+    def new_limit(old):
+        old = float(I.num(old))
+        lim = rng.choice([16.0, 24.0, 32.5, 80.0, 1e4, round(old * 0.5, 3), round(old * 1.5, 3), old + 1.0])
+        return lim if lim != old else old + 7.0
+
+    def upd(c, coef=None, new_name=None, limit=None):
+        o = {"op": "update", "name": c[0], "current": [[k, v] for k, v in (c[1] if coef is None else coef).items()],
+             "limit": new_limit(c[2]) if limit is None else limit}
+        if new_name is not None:
+            o["new_name"] = new_name
+        return o
+
+    def new_coef(c):
+        coef = dict(c[1])
+        r = rng.random()
+        if r < 0.4 and coef:
+            k = rng.choice(sorted(coef))
+            coef[k] = coef[k] * rng.choice([2.0, -1.0, 0.5])
+        elif r < 0.6 and len(coef) > 1:
+            del coef[rng.choice(sorted(coef))]
+        else:
+            free = [s for s in ids if s not in coef]
+            if free:
+                coef[rng.choice(free)] = rng.choice([1.0, -1.0, 0.5])
+            elif coef:
+                k = rng.choice(sorted(coef))
+                coef[k] = coef[k] + 1.0
+        return coef
+
+    if kind == "est":
+        live = [s for s in case["sessions"] if s["departure"] > s["arrival"]]
+        if not live or case.get("malformed"):
+            kind = "none"
+        else:
+            ops = []
+            for s in rng.sample(live, min(len(live), rng.choice([1, 1, 2]))):
+                ops.append({"op": "est", "session": s["session"], "value": max(s["arrival"] + 1, s["departure"] + rng.choice([-2, -1, 1, 3, 10]))})
+            return ops, kind
+    if kind == "tariff":
+        return [{"op": "tariff", "name": rng.choice(TARIFFS[1:] if tag % 2 else TARIFFS), "inplace": rng.random() < 0.5}], kind
+    if kind == "none":
+        return [], kind
+    if not cons and kind != "add":
+        kind = "add"
+    if kind == "limit_last":
+        return [upd(cons[-1])], kind
+    if kind == "limit_any":
+        return [upd(rng.choice(cons))], kind
+    if kind == "coef_last":
+        c = cons[-1]
+        return [upd(c, new_coef(c), limit=c[2] if rng.random() < 0.5 else None)], kind       # same limit, new row
+    if kind == "coef_any":
+        c = rng.choice(cons)
+        return [upd(c, new_coef(c), limit=c[2] if rng.random() < 0.5 else None)], kind
+    if kind == "cycle":          # every constraint once, in order: the name list ends up as it was
+        names = [c[0] for c in cons]
+        if len(set(names)) != len(names):
+            return [upd(cons[-1])], "limit_last"
+        return [upd(c) for c in cons], kind
+    if kind in ("readd", "readd_last"):
+        c = cons[-1] if kind == "readd_last" else rng.choice(cons)
+        return [{"op": "remove", "name": c[0]},
+                {"op": "add", "name": c[0], "current": [[k, v] for k, v in c[1].items()], "limit": new_limit(c[2])}], kind
+    if kind == "rename":
+        c = rng.choice(cons)
+        return [upd(c, new_name=f"{c[0]}.r{tag}", limit=c[2] if rng.random() < 0.5 else None)], kind
+    if kind == "remove":
+        return [{"op": "remove", "name": c[0]} for c in rng.sample(cons, rng.choice([1, 1, min(2, len(cons))]))], kind
+    sub = rng.sample(ids, rng.randint(1, len(ids)))
+    cur = [[s, rng.choice([1, 1, 1, -1, 0.5, 2])] for s in sub]
+    return [{"op": "add", "name": rng.choice([None, f"n{tag}", f"n{tag}", cons[-1][0] if cons else "agg"]), "current": cur,
+             "limit": rng.choice([16.0, 32.5, 80.0, 1e4])}], "add"
+
+
+def _add_edits(rng, case, kinds=None):
+    """1-4 edits of what the scheduler's view describes, between invocations: mostly from the post_charging_update
+    hook of a period (most of them in the period just before an event period, so that an invocation follows; with
+    max_recompute every period has one), some before the first run() (the Interface having been asked), some between
+    the run()s of a staged case.  The constraint list is tracked with the oracle's replay so that every op names a
+    constraint that exists at that point of the history."""
+    ts = _known_ts(case, with_others=True)
+    hi = max(ts + [3])
+    ev_periods = sorted({t for t in _known_ts(case) if t >= 1})
+    moments = []
+    for _ in range(rng.choice([1, 1, 2, 2, 3, 4])):
+        q = rng.random()
+        if q < 0.12:
+            moments.append({"at": "pre"})
+            if rng.random() < 0.7:
+                case["pre_query"] = True
+        elif _splits(case) and staging_ok(case) and q < 0.4:
+            moments.append({"at": "stage", "k": rng.randrange(len(_splits(case)))})
+        elif ev_periods and q < 0.8:
+            moments.append({"at": "hook", "t": rng.choice(ev_periods) - 1})
+        else:
+            moments.append({"at": "hook", "t": rng.randint(0, hi)})
+    moments.sort(key=lambda e: _edit_key(case, e))
+    case["net_edits"] = []
+    for j, m in enumerate(moments):
+        cons = _net_state(case, range(len(case["net_edits"])))["cons"]
+        kind = kinds[j % len(kinds)] if kinds else rng.choice(EDIT_KINDS)
+        m["ops"], m["kind"] = _gen_entry_ops(rng, case, cons, kind, j)
+        case["net_edits"].append(m)
+    return case
+
+
 def _retime(rng, case):
     """C05's extra dimensions on top of a simcase scenario."""
     r = rng.random()
@@ -1266,6 +1746,10 @@ def exhaustive():
                                    for i, t in enumerate(othsets[(k // 12) % len(othsets)])]
                 if k % 5 == 0:
                     c["pre_query"] = True
+                if k % 4 == 0:        # every fourth layout: the network / tariff / an estimate edited between invocations
+                    import random as _random
+                    kinds = EDIT_KINDS[4:]
+                    c = _add_edits(_random.Random(k), c, kinds=["limit_last", kinds[(k // 4) % len(kinds)]])
                 out.append(c)
     return out
 
@@ -1380,6 +1864,8 @@ def generate(rng, n, tier):
             c = _stage(rng, c)
         elif r == 24 and not c.get("malformed"):
             c = _stage(rng, c, late=True)
+        if r in (0, 3, 4, 8, 12, 15, 18, 19, 21):
+            c = _add_edits(rng, c)          # LAST: the moments of the edits depend on the staging
         out.append(c)
     return out
 
@@ -1485,6 +1971,30 @@ def features(case, obs):
             f.append("arrival_in_period_where_previous_run_stopped")
         if _splits(case)[0] == 0:
             f.append("constructed_with_empty_queue")
+    ed = _edits(case)
+    f.append(f"net_edits={min(len(ed), 3)}")
+    if ed:
+        f.extend(sorted({f"edit_kind={e.get('kind')}" for e in ed} | {f"edit_at={e['at']}" for e in ed}))
+        asked = [("q", o) for o in obs.get("outside", []) if "error" not in o and o["when"].startswith("pre")] + [("v", v) for v in views]
+        prev = None
+        for tag, v in asked:
+            cur = tuple(v.get("edits", []))
+            if prev is not None and cur != prev[1]:
+                a, b = expected_infra(case, prev[1]), expected_infra(case, cur)
+                same_ids = a["constraint_ids"] == b["constraint_ids"]
+                f.append("edit_between_two_invocations" if prev[0] == "v" else "edit_between_outside_query_and_invocation")
+                if same_ids and (a["constraint_limits"] != b["constraint_limits"] or a["constraint_matrix"] != b["constraint_matrix"]):
+                    f.append("edit_keeps_constraint_ids_and_order_changes_contents")
+                    if a["constraint_matrix"] == b["constraint_matrix"]:
+                        f.append("edit_changes_limits_only")
+                elif not same_ids:
+                    f.append("edit_changes_constraint_ids")
+                if len(b["constraint_ids"]) == 0 or len(a["constraint_ids"]) == 0:
+                    f.append("edit_from_or_to_constraint_free_network")
+            prev = (tag, cur)
+        if len(obs.get("edits_applied", [])) < len(ed):
+            f.append("edit_scheduled_after_the_run_ended")
+        f = sorted(set(f))
     f.append(f"model={model_mode(case, obs)}")
     f.append(f"outside_queries={min(len(obs.get('outside', [])), 4)}")
     return sorted(set(f)) if oth else f
@@ -1508,7 +2018,7 @@ def shrink(case, kind):
                 c2.pop(key)
                 if bad(c2):
                     cur, changed = c2, True
-        for key in ("sessions", "recomputes", "others"):
+        for key in ("net_edits", "sessions", "recomputes", "others", "extra_constraints"):
             i = 0
             while i < len(cur.get(key, [])):
                 c2 = copy.deepcopy(cur)
